@@ -11,7 +11,7 @@ import hashlib, os, subprocess, sys, shlex, concurrent.futures as cf
 VERIF = os.path.dirname(os.path.dirname(os.path.abspath(__file__)))
 REPO = os.environ.get("RX_REPO", "/repo")
 SRC = os.path.join(REPO, "src")
-BUILD = os.path.join(VERIF, "build")
+BUILD = os.environ.get("RX_BUILD", os.path.join(VERIF, "build"))
 
 LIB_SOURCES = """aes_hash.cpp argon2_ref.c argon2_ssse3.c argon2_avx2.c bytecode_machine.cpp cpu.cpp
 dataset.cpp soft_aes.cpp virtual_memory.c vm_interpreted.cpp allocator.cpp assembly_generator_x86.cpp
